@@ -132,11 +132,12 @@ int main(int argc, char** argv) {
 		for (size_t len : lens) for (int v2 = 0; v2 < 2; ++v2) {
 			if (args.expired()) { R.incomplete = true; return R; }
 			Case c{ k.key, alph::input(len, (int)((len + shard) % 3)), (bool)v2 };
-			vf::set_current(case_json(c).dump());
+			vf::set_current(case_json(c).dump()); vf::watchdog(600);
 			d = check_hash(k, c, R, (n++ % 4) == 0);
 			if (shard < 2 && len == 76) R.sample(case_json(c), 2);
 			if (!d.empty()) { vf::Violation v; v.key = "c02:hash"; v.what = "key(len " + std::to_string(k.key.size()) + ") input(len " + std::to_string(len) + ") " + (v2 ? "v2" : "v1") + ": " + d; v.replay = case_json(c).set("shard", shard).set("ordinal", n - 1); R.viol.push_back(v); if (R.viol.size() >= 3) return R; }
 		}
+		alarm(0);
 		return R;
 	}, true, 3600);
 	vf::Evidence ev; ev.level = "exploration";
